@@ -858,6 +858,14 @@ func (b *Builder) grownInLoop(o *types.Var) bool {
 								res = true
 							}
 						}
+						// a list of lists extended under a condition (one more list if there is one) has
+						// one term per path all the same
+						if sl, ok := o.Type().Underlying().(*types.Slice); ok {
+							switch types.Unalias(sl.Elem()).Underlying().(type) {
+							case *types.Slice:
+								res = true
+							}
+						}
 					}
 					return true
 				})
